@@ -21,7 +21,11 @@ def choose_versions(run, exe, U, acc, rnd, nclass, nsingle):
               ["%d.%d%s" % (x, y, z) for x in (0, 1, 2) for y in (1, 2, 10) for z in ("", ".0", ".0.0")] +
               # epochs and pre-releases around the same numbers (whatever spelling the ecosystem accepts)
               [ep + v for ep in ("1!", "2!", "0:", "1:") for v in ("1.0", "1.0.3", "2.0", "0.9")] +
-              [v + q for v in ("1.0", "1.0.0", "2.0.0", "1.1") for q in ("-rc1", ".rc1", "rc1", "-alpha", "-alpha.1", "a1", "_rc1", "~rc1", "-SNAPSHOT", ".dev1", "-beta")]
+              [v + q for v in ("1.0", "1.0.0", "2.0.0", "1.1") for q in ("-rc1", ".rc1", "rc1", "-alpha", "-alpha.1", "a1", "_rc1", "~rc1", "-SNAPSHOT", ".dev1", "-beta")] +
+              # zero parts spelled with several digits, and pre-release identifiers around the limits of machine integers next
+              # to digit-led alphanumerics: where an order stops being transitive first (the lists C07 sorts come from here)
+              ["1.00", "1.0.00", "1.000", "01.0", "2.5.000"] +
+              [st + "-" + i for st in ("1.0.0", "v1.0.0") for i in ("5", "10", "9223372036854775808", "40000000000000000000", "100000000000000000000", "5a", "1a", "9a", "12", "100", "0a")]
               for e in ECOS}
     fam = vlib.accept_filter(run, exe, fam, name="fam")
     famset = {e: set(fam[e]) for e in ECOS}
